@@ -39,6 +39,7 @@ type decodeCase struct {
 	Targets []string `json:"targets,omitempty"` // kind keys
 	Names   []string `json:"names,omitempty"`
 	Rows    int      `json:"rows,omitempty"`
+	Size    int      `json:"size,omitempty"` // fixedstr mode: width of the caller's ColFixedStr
 	Message string   `json:"message,omitempty"`
 	Hex     string   `json:"hex"`
 	Note    string   `json:"note,omitempty"`
@@ -216,7 +217,7 @@ func decodeAndWalk(c decodeCase, data []byte) (*verdict, error) {
 				return &verdict{"inconsistent", fmt.Sprintf("auto column %d (%s): %v", i, rc.Data.Type(), err)}, nil
 			}
 		}
-	case "column", "lcraw", "colraw":
+	case "column", "lcraw", "colraw", "fixedstr":
 		var col proto.ColResult
 		switch c.Mode {
 		case "column":
@@ -229,6 +230,8 @@ func decodeAndWalk(c decodeCase, data []byte) (*verdict, error) {
 			col = &proto.ColLowCardinalityRaw{Index: new(proto.ColStr)}
 		case "colraw":
 			col = &proto.ColRaw{T: "UInt32", Size: 4}
+		case "fixedstr":
+			col = &proto.ColFixedStr{Size: c.Size}
 		}
 		if s, ok := col.(proto.StateDecoder); ok && c.Rows > 0 {
 			if err := s.DecodeState(r); err != nil {
@@ -441,6 +444,18 @@ func TestC06ColumnMutations(t *testing.T) {
 				c.Mode = "lcraw"
 			} else if special == 1 {
 				c.Mode = "colraw"
+			} else if special == 2 && rapid.Bool().Draw(rt, "wide-fixed-string") {
+				// A caller-built FixedString column of any width, wider than the reader's buffer included.
+				c.Mode = "fixedstr"
+				c.Size = rapid.SampledFrom([]int{1, 7, 255, 4096, 65536, 131071, 131072, 131073, 200000, 1 << 20}).Draw(rt, "fixed-width")
+				c.Rows = rapid.IntRange(0, 3).Draw(rt, "fixed-rows")
+				rows = c.Rows
+				data, mut = gen.Mutate(rt, gen.Expand(rapid.Uint64().Draw(rt, "fixed-seed"), c.Size*c.Rows), nil, nil)
+				if rapid.Bool().Draw(rt, "fixed-intact") {
+					data = gen.Expand(7, c.Size*c.Rows)
+					mut = gen.Mutation{Desc: "intact"}
+				}
+				c.Hex = hex.EncodeToString(data)
 			}
 			c06report(rt, c, runDecodeCase(c), mut)
 			st.Case(stats.Hash("c06c", data, c.Mode, k.Key(), rows), mut.Struct, func() any {
